@@ -302,6 +302,14 @@ fn run_file(t: &mut Trace, case: u64, rng: &mut Rng, adlt: &str, tmp: &str, n: u
     std::fs::write(&fin, &all).expect("write input file");
     let _ = std::fs::remove_file(&fout);
     let _ = std::fs::remove_file(&fout2);
+    // every second file: the output paths exist already and hold MORE bytes than the export will have (an earlier, larger
+    // export to the same path) - the export must replace them, not overwrite their beginning
+    let stale = case % 2 == 0;
+    if stale {
+        let junk: Vec<u8> = (0..all.len() + 5000).map(|i| (i % 251) as u8).collect();
+        std::fs::write(&fout, &junk).expect("pre-create output");
+        std::fs::write(&fout2, &junk).expect("pre-create output 2");
+    }
     let run = |a: &str, b: &str| -> i32 {
         std::process::Command::new(adlt).args(["convert", a, "-o", b]).env("TZ", "UTC")
             .stdout(std::process::Stdio::null()).stderr(std::process::Stdio::null())
@@ -342,7 +350,7 @@ fn run_file(t: &mut Trace, case: u64, rng: &mut Rng, adlt: &str, tmp: &str, n: u
         t.ev(json!({"ev":"panic","msg":msg}));
     }
     t.ev(json!({"ev":"fend","rc1":rc1,"rc2":rc2,"n_out":n_out,"trailing":out.len() - off,
-                "second_identical": !out.is_empty() && out == out2, "in_bytes":all.len(), "out_bytes":out.len(), "out2_bytes":out2.len()}));
+                "second_identical": !out.is_empty() && out == out2, "out_preexisted": stale, "in_bytes":all.len(), "out_bytes":out.len(), "out2_bytes":out2.len()}));
     if rc1 == 0 && rc2 == 0 && out == out2 {
         let _ = std::fs::remove_file(&fin);
         let _ = std::fs::remove_file(&fout);
